@@ -152,6 +152,8 @@ class Model:
                     ops.append(("mkreq", r))
                 for r2 in R:
                     ops.append(("mktup2", r, r2))
+                    if r2 != r:
+                        ops.append(("mklst2", r, r2))
             for a in roots:
                 for b in roots:
                     for c in roots:
@@ -165,7 +167,7 @@ class Model:
                     ops += [("rep_opt_none", r), ("rep_tup_empty", r), ("rep_tup_rev", r), ("rep_tup_dupfirst", r), ("rep_lst_empty", r)]
                     for r2 in R:
                         if not in_subtree(nodes[r2], n):
-                            ops += [("rep_opt", r, r2), ("rep_tup_append", r, r2)]
+                            ops += [("rep_opt", r, r2), ("rep_tup_append", r, r2), ("rep_lst_append", r, r2)]
                 ops.append(("rep_forbidden", r))
                 for kind in ("identity", "rewrite", "remove-a", "raise-b"):
                     ops.append(("visit", r, kind))
@@ -209,6 +211,8 @@ class Model:
             return LI(tup=(nodes[op[1]], nodes[op[2]]), origin=NO_ORIGIN)
         if k == "mklst":
             return LI(lst=[nodes[op[1]]], origin=NO_ORIGIN)
+        if k == "mklst2":
+            return LI(lst=[nodes[op[1]], nodes[op[2]]], origin=NO_ORIGIN)
         if k == "mkreq":
             return LR(req=nodes[op[1]], origin=NO_ORIGIN)
         if k == "mk3":
@@ -234,6 +238,8 @@ class Model:
             return n.replace(tup=n.tup + (nodes[op[2]],))
         if k == "rep_lst_empty":
             return n.replace(lst=[])
+        if k == "rep_lst_append":
+            return n.replace(lst=n.lst + [nodes[op[2]]])
         if k == "rep_forbidden":
             return n.replace(id="forced")
         if k == "visit":
@@ -295,9 +301,12 @@ class Model:
             rec.count("rejected")
             if self.mode == "c19":
                 rec.count("nontrivial")
-                gc.collect()
                 after = snapshot(nodes)
                 diff = snap_diff(snap, after, nodes)
+                if diff:  # confirm after a collection: objects held only by the dropped exception must not count
+                    gc.collect()
+                    after = snapshot(nodes)
+                    diff = snap_diff(snap, after, nodes)
                 if diff:
                     groups = sorted({group_of(what) for i, what in diff})
                     sig = f"C19|{op_family(op)}|{errname}|{pre['ids']}|" + "+".join(groups)
@@ -319,19 +328,28 @@ class Model:
 
 
 def precondition_facts(op, nodes):
-    """Facts about receiver / arguments before the call.
-    ids = 'shadowed' when the subtree of the receiver or of an argument contains a node whose id is at that moment
-    registered to ANOTHER object (a stale original next to its replacement, a detached clone next to the original):
-    the recorded legacy findings all need such an id clash, a violation with 'plain' ids is a different one."""
+    """Facts about the world before the call.
+    ids = 'aliased' when identity-by-id-string is ambiguous somewhere in the reachable world: two distinct reachable
+    objects carry one id (a stale original next to its replacement, a detached clone next to the original), a reachable
+    node's id is registered to another object, or a node's parent id no longer leads to an object that holds it.
+    Every recorded legacy finding needs such a world; a violation reached from an alias-free ('plain') world is a
+    different finding and is reported."""
+    aliased = False
+    seen = {}
+    for x in nodes:
+        if seen.setdefault(x.id, x) is not x:
+            aliased = True
+        other = N._nodes.get(x.id)
+        if other is not None and other is not x:
+            aliased = True
+        pid = getattr(x, "_parent_id", None)
+        if pid is not None:
+            par = N._nodes.get(pid)
+            if par is None or not any(c is x for c, _, _ in kids(par)):
+                aliased = True
     involved = [nodes[i] for i in op[1:] if isinstance(i, int) and not isinstance(i, bool) and op[0] != "drop" and i < len(nodes)]
-    shadowed = False
-    for n in involved:
-        for x in subtree(n):
-            other = N._nodes.get(x.id)
-            if other is not None and other is not x:
-                shadowed = True
     recv = involved[0] if involved and not op[0].startswith("mk") else None
-    return {"ids": "shadowed" if shadowed else "plain",
+    return {"ids": "aliased" if aliased else "plain",
             "receiver_attached_root": bool(recv is not None and not recv.detached and recv.parent is None)}
 
 
